@@ -52,6 +52,27 @@ struct UniqueGuard
 #define RLBOX_ACQUIRE_SHARED_GUARD(name, ...) simlock::SharedGuard name(__VA_ARGS__)
 #define RLBOX_ACQUIRE_UNIQUE_GUARD(name, ...) simlock::UniqueGuard name(__VA_ARGS__)
 
+#ifdef TH_TIMING
+// transition timing enabled (TSan build): the library's timing code runs too; its clock is a per-thread simulated one
+#  include <chrono>
+#  define RLBOX_MEASURE_TRANSITION_TIMES
+namespace rlbox {
+struct high_resolution_clock
+{
+  using duration = std::chrono::nanoseconds;
+  using rep = duration::rep;
+  using period = duration::period;
+  using time_point = std::chrono::time_point<high_resolution_clock>;
+  static constexpr bool is_steady = true;
+  static time_point now() noexcept
+  {
+    static thread_local long long t = 0;
+    t += 17;
+    return time_point(duration(t));
+  }
+};
+}
+#endif
 #include "../sim/world_common.hpp"
 #include "rlbox_dylib_sandbox.hpp"
 #include "rlbox_noop_sandbox.hpp"
